@@ -187,39 +187,46 @@ end
 
 def numFiles (n : Nat) : String := if n > 1 then s!"{n} files" else s!"{n} file"
 
-/-- `main` ∘ `execute`. `rootName`: name of the directory the walk starts from. -/
+def summaryMsg (a : Args) (formatted unchanged : Nat) : String :=
+  if a.check then s!"{numFiles formatted} would be reformatted ({unchanged} already formatted), checked in <T>"
+  else s!"Successfully formatted {numFiles formatted} ({unchanged} unchanged) in <T>"
+
+/-- Exit status of `main` for `Ok(status)`. -/
+def exitOf (a : Args) (changed : Bool) : Nat := if a.check && changed then 1 else 0
+
+/-- `format_all` and the end of `main`. `rootName`: name of the directory the walk starts from. -/
+def runFormatAll (lib : Lib) (a : Args) (w : Entry) (dir : Option Path) (rootName : String) : Result :=
+  let p := dir.getD []
+  match w.get p with
+  | none => -- walkdir reports an error entry, which is dropped
+    { world := w, evs := infoEv a (summaryMsg a 0 0), exit := 0 }
+  | some e =>
+    let name := match p.getLast? with | some n => n | none => rootName
+    let r := walk lib a { st := { world := w } } p name 0 e
+    let evs := r.st.evs ++ infoEv a (summaryMsg a r.formatted r.unchanged)
+    if r.errors > 0 then { world := r.st.world, evs := evs ++ [.error], exit := 1 }
+    else { world := r.st.world, evs := evs, exit := exitOf a r.changed }
+
+def runStdin (lib : Lib) (a : Args) (w : Entry) (input : String) : Result :=
+  match formatOne lib a none input { world := w } with
+  | (st, some ch) => { world := st.world, evs := st.evs, exit := exitOf a ch }
+  | (st, none) => { world := st.world, evs := st.evs ++ [.error], exit := 1 }
+
+/-- `format_many` and the end of `main`. -/
+def runFiles (lib : Lib) (a : Args) (w : Entry) (ps : List Path) : Result :=
+  let r := ps.foldl (manyStep lib a) { st := { world := w } }
+  if r.errors > 0 then { world := r.st.world, evs := r.st.evs ++ [.error], exit := 1 }
+  else { world := r.st.world, evs := r.st.evs, exit := exitOf a r.changed }
+
+def usageError (w : Entry) : Result := { world := w, evs := [], exit := 2 }
+
+/-- `main` ∘ `execute`, after clap: `--inplace` conflicts with `--check`; `validate_input`. -/
 def run (lib : Lib) (a : Args) (w : Entry) (rootName : String := "root") : Result :=
+  if a.inplace && a.check then usageError w else
   match a.cmd with
-  | .formatAll dir =>
-    if a.inplace && a.check then { world := w, evs := [], exit := 2 } else
-    let p := dir.getD []
-    match w.get p with
-    | none => -- walkdir reports an error entry, which is dropped
-      let msg := if a.check then s!"{numFiles 0} would be reformatted (0 already formatted), checked in <T>"
-                 else s!"Successfully formatted {numFiles 0} (0 unchanged) in <T>"
-      { world := w, evs := infoEv a msg, exit := 0 }
-    | some e =>
-      let name := match p.getLast? with | some n => n | none => rootName
-      let r := walk lib a { st := { world := w } } p name 0 e
-      let msg := if a.check then s!"{numFiles r.formatted} would be reformatted ({r.unchanged} already formatted), checked in <T>"
-                 else s!"Successfully formatted {numFiles r.formatted} ({r.unchanged} unchanged) in <T>"
-      let evs := r.st.evs ++ infoEv a msg
-      if r.errors > 0 then { world := r.st.world, evs := evs ++ [.error], exit := 1 }
-      else { world := r.st.world, evs := evs, exit := if a.check && r.changed then 1 else 0 }
-  | .stdin input =>
-    if a.inplace && a.check then { world := w, evs := [], exit := 2 }
-    else if a.inplace then { world := w, evs := [], exit := 2 }   -- `validate_input`
-    else
-      match formatOne lib a none input { world := w } with
-      | (st, some ch) => { world := st.world, evs := st.evs, exit := if a.check && ch then 1 else 0 }
-      | (st, none) => { world := st.world, evs := st.evs ++ [.error], exit := 1 }
-  | .files ps =>
-    if a.inplace && a.check then { world := w, evs := [], exit := 2 } else
-    match ps with
-    | [] => { world := w, evs := [], exit := 2 }   -- not a `files` invocation (would be stdin)
-    | _ =>
-      let r := ps.foldl (manyStep lib a) { st := { world := w } }
-      if r.errors > 0 then { world := r.st.world, evs := r.st.evs ++ [.error], exit := 1 }
-      else { world := r.st.world, evs := r.st.evs, exit := if a.check && r.changed then 1 else 0 }
+  | .formatAll dir => runFormatAll lib a w dir rootName
+  | .stdin input => if a.inplace then usageError w else runStdin lib a w input
+  | .files [] => usageError w        -- not a `files` invocation (it would read stdin)
+  | .files ps => runFiles lib a w ps
 
 end Typstyle.Cli
